@@ -278,7 +278,7 @@ class ArbiterTrusted(Arbiter):
                     truthmax = truth
                     impmax = imp
                     inputmax = input
-                elif ( (truth == truthmax) and (imp > imputmax) ):
+                elif ( (truth == truthmax) and (imp > impmax) ):
                     truthmax = truth
                     impmax = imp
                     inputmax = input
